@@ -709,17 +709,12 @@ impl Registry {
     }
 
     fn write_implements(&self, sdl: &mut String, name: &str) {
-        if let Some(implements) = self.implements.get(name)
-            && !implements.is_empty()
-        {
+        let implements = self.all_implements(name);
+        if !implements.is_empty() {
             write!(
                 sdl,
                 " implements {}",
-                implements
-                    .iter()
-                    .map(AsRef::as_ref)
-                    .collect::<Vec<&str>>()
-                    .join(" & ")
+                implements.into_iter().collect::<Vec<&str>>().join(" & ")
             )
             .ok();
         }
